@@ -189,19 +189,31 @@ func (f c06Fault) firstFault() string {
 	return "Extension.Crash"
 }
 
-func platformRequestID(tr *Trace, tag string) string {
+// platformRequestIDs: the request ids of all dispatches recorded inside the caller's window, in order.
+func platformRequestIDs(tr *Trace, tag string) []string {
 	iss, ret := tr.invokeIssue(tag), tr.invokeReturn(tag)
 	if iss == nil || ret == nil {
-		return ""
+		return nil
 	}
-	id := ""
+	var ids []string
 	for i := range tr.Events {
 		e := &tr.Events[i]
 		if e.Kind == "platform" && e.Call == "SetCurrentRequestID" && e.Seq > iss.Seq && e.Seq < ret.Seq {
-			id, _ = e.Extra["requestId"].(string)
+			if id, _ := e.Extra["requestId"].(string); id != "" {
+				ids = append(ids, id)
+			}
 		}
 	}
-	return id
+	return ids
+}
+
+// platformRequestID: the last dispatch inside the caller's window; only meaningful for sequential callers.
+func platformRequestID(tr *Trace, tag string) string {
+	ids := platformRequestIDs(tr, tag)
+	if len(ids) == 0 {
+		return ""
+	}
+	return ids[len(ids)-1]
 }
 
 func c06Check(c c06Case) (out kit.Outcome) {
